@@ -38,15 +38,73 @@ class Env(object):
         self._installed = False
         self.fired = Counter()
 
+    def _datetime_shim(self):
+        """A stand-in for the `datetime` module inside verif's modules whose now()/utcnow()/today() read the
+        simulated clock (everything else is the real thing), so that clock jumps reach code that asks for
+        the current date."""
+        import datetime as _dt
+        import types
+        env = self
+
+        class SimDateTime(_dt.datetime):
+            @classmethod
+            def now(cls, tz=None):
+                return cls.fromtimestamp(env._fake_time(), tz)
+
+            @classmethod
+            def utcnow(cls):
+                return cls.utcfromtimestamp(env._fake_time())
+
+            @classmethod
+            def today(cls):
+                return cls.fromtimestamp(env._fake_time())
+
+        class SimDate(_dt.date):
+            @classmethod
+            def today(cls):
+                return cls.fromtimestamp(env._fake_time())
+
+        shim = types.ModuleType("datetime")
+        shim.__dict__.update({k: v for k, v in _dt.__dict__.items() if not k.startswith("__")})
+        shim.datetime = SimDateTime
+        shim.date = SimDate
+        return shim
+
     def install(self):
         if not self._installed:
             self._saved_tz = os.environ.get("TZ")
+            self._saved_env = {}
             _time.time = self._fake_time
             self._installed = True
             self.set_zone("UTC", count=False)
+            import sys
+            import datetime as _dt
+            shim = self._datetime_shim()
+            self._patched = []
+            for name, mod in list(sys.modules.items()):
+                if name.startswith("verif.") and getattr(mod, "datetime", None) is _dt:
+                    mod.datetime = shim
+                    self._patched.append(mod)
+
+    def set_envvar(self, name, value):
+        if name not in self._saved_env:
+            self._saved_env[name] = os.environ.get(name)
+        if value is None:
+            os.environ.pop(name, None)
+        else:
+            os.environ[name] = value
+        self.fired["envvar_change"] += 1
 
     def uninstall(self):
         if self._installed:
+            import datetime as _dt
+            for mod in getattr(self, "_patched", []):
+                mod.datetime = _dt
+            for name, value in getattr(self, "_saved_env", {}).items():
+                if value is None:
+                    os.environ.pop(name, None)
+                else:
+                    os.environ[name] = value
             _time.time = self._real_time
             if self._saved_tz is None:
                 os.environ.pop("TZ", None)
